@@ -3,3 +3,18 @@ claim("C06", "exploration",
       "Trusted: the harness's reference encoder/tokenizer (refcodec), the scripted source and executor, std/futures read_exact. Sampled, not exhaustive.",
       "deterministic simulation: scripted Read/AsyncRead sources + scripted executor, seeded schedules, byte-counter invariant",
       "DESIGN.md 5.2")
+claim("C05", "exploration",
+      "Differential simulation: the real async parser runs on a scripted executor over a scripted AsyncRead (seeded chunking, Pending with inline/deferred wake, spurious polls), the real blocking parser reads the same bytes unfragmented; outcome (content, offending tag, I/O error kind, panic class) and trailing data must be equal, for parse and parse_parts, on well-formed, reference-only, damaged and truncated streams, with optional identical faults on both sides. Exploration: seeded search over streams x schedules; executor invariants (no lost wake-up, bounded polls) are checked on every run.",
+      "Trusted: scripted executor/source, refcodec for building streams. Because the oracle is differential, codec defects of unclaimed properties cancel out. Sampled, not exhaustive over compositions.",
+      "deterministic simulation: scripted executor + scripted AsyncRead vs blocking reference, differential oracle",
+      "DESIGN.md 5.1")
+claim("C07", "fault_enumeration",
+      "Per seeded well-formed message and parser front end, a single sticky fault (stream cut, or one of 7-8 I/O error kinds) is placed at byte offsets before the end-of-attributes tag — every offset in the thorough tier, ~34 edge-biased offsets in the quick tier — each under three fragmentations (whole, byte-at-a-time, seeded with EINTR/Pending). The result must be Err carrying the injected kind; never Ok, never a panic. This is crash-at-every-point fault enumeration per workload, with seeded workloads.",
+      "Trusted: scripted source with data-offset faults; messages are sampled, the fault space per message is enumerated as stated in the evidence rule.",
+      "deterministic simulation: systematic single-fault placement (EOF / I/O error kind x offset x fragmentation)",
+      "DESIGN.md 5.3")
+claim("C08", "exploration",
+      "The real into_read / into_async_read streams (Cursor chained with IppPayload, AllowStdIo and block_on bridges) are consumed with seeded per-call buffer sizes while the payload source is scripted (chunking, EINTR, Pending with inline / deferred / cross-thread wake). Conservation oracle: bytes out == to_bytes() of the same instance ++ payload, sticky EOF, payload source drained exactly. All six cells of payload kind x consumer kind are exercised on every batch.",
+      "Trusted: scripted sources/executor. The async-payload-behind-blocking-interface cell runs under the real futures_executor::block_on with a real helper thread (token-based, outcome-deterministic; verified by the determinism self-check). No payload-source errors are injected (outside the statement).",
+      "deterministic simulation: scripted payload sources and consumers across both sync<->async bridges, conservation oracle",
+      "DESIGN.md 5.4")
